@@ -1,6 +1,6 @@
 #!/bin/bash
 # tools/run_all.sh [tier] — runs every claimed check against /repo and prints one line each.
-cd /verif; T="${1:-quick}"
+cd "$(dirname "$0")/.."; T="${1:-quick}"
 for id in $(python3 -c "import json;print(' '.join(c['property_id'] for c in json.load(open('MANIFEST.json'))['checks']))"); do
   s=$(date +%s); out=$(./vrun $id $T 2>&1); rc=$?; e=$(( $(date +%s) - s ))
   echo "$id rc=$rc ${e}s $(echo "$out" | grep -E "^$id $T:" | sed 's/.*units=/units=/')"
